@@ -318,6 +318,7 @@ def main(tier, seed):
             shards.append({'kind': 'pairs3', 'cfg': cfg, 'o': o, 'lo': lo, 'hi': hi})
         if tier == 'thorough':
             shards.append({'kind': 'len3', 'cfg': cfg, 'o': o, 'n': 5})
+            shards.append({'kind': 'len3', 'cfg': cfg, 'o': o, 'n': 6})
     for cfg in (('simple', ','), ('quoted', ','), ('quoted_rfc', ','), ('simple', '\t'), ('quoted', ';'), ('monocolumn', '')):
         shards.append({'kind': 'latin1', 'cfg': cfg, 'o': ['o', 'e']})
     for cfg in configs():
@@ -326,7 +327,7 @@ def main(tier, seed):
     shards.sort(key=lambda s: {'pairs3': 0, 'pairs2': 1, 'shape': 2, 'len3': 3, 'latin1': 4, 'long': 2, 'js': 1, 'manylines': 3}[s['kind']])
     res = core.run_shards('vf.checks.c10', shards)
     return core.finish(PID, tier, seed, res, t0,
-        rule='tables over the field alphabet {quote, delimiter characters, space, tab, CR, LF, ordinary, non-ASCII}: all 1-2 field rows over fields <= 2 chars, fields of length 3 (thorough 4; and all 2-field rows over fields <= 3) '
+        rule='tables over the field alphabet {quote, delimiter characters, space, tab, CR, LF, ordinary, non-ASCII}: all 1-2 field rows over fields <= 2 chars, fields of length 3-4 (thorough 5-6; and all 2-field rows over fields <= 3) '
              'alone and paired, 3-field rows, 2-row tables, None cells, x 31 (policy, delimiter) configurations (single-, multi-character, non-ASCII) x line separators x encodings; all 256 latin-1 code points; '
              'non-trivial = representable by the reference writer/reader pair (then the real pair must round-trip with no warnings)',
         assumptions=['representable is decided by RefCSV (ref_read(ref_write(t)) == t, CR/CRLF normalised to LF under quoted_rfc)', 'no leading BOM character in the first field'],
